@@ -13,6 +13,8 @@ import (
 	"time"
 
 	"github.com/jech/galene/token"
+
+	"github.com/jech/galene/verifhook"
 )
 
 var ErrTagMismatch = errors.New("tag mismatch")
@@ -412,9 +414,11 @@ func rewriteDescriptionFile(filename string, desc *Description) error {
 		return err
 	}
 	temp := f.Name()
+	verifhook.At("description.rewrite.created", temp)
 
 	encoder := json.NewEncoder(f)
 	err = encoder.Encode(desc)
+	verifhook.At("description.rewrite.encoded", temp)
 	if err == nil {
 		err = f.Sync()
 	}
@@ -423,17 +427,20 @@ func rewriteDescriptionFile(filename string, desc *Description) error {
 		os.Remove(temp)
 		return err
 	}
+	verifhook.At("description.rewrite.synced", temp)
 	err = f.Close()
 	if err != nil {
 		os.Remove(temp)
 		return err
 	}
+	verifhook.At("description.rewrite.closed", temp)
 
 	err = os.Rename(temp, filename)
 	if err != nil {
 		os.Remove(temp)
 		return err
 	}
+	verifhook.At("description.rewrite.renamed", filename)
 
 	return nil
 
